@@ -23,6 +23,7 @@ from ...instantiable import io
 from ..helpers.resolve_ref_types import update_ref_deps
 
 # Import the base class
+from ..helpers.used_refs import used_refs
 from .base import ElabPass
 
 
@@ -141,6 +142,9 @@ class BundleFlattener(ElabPass):
         # Cache the state of the Module's IOs before flattening
         module._pre_flattening_io = copy.copy(io(module))
 
+        # Note which of the references that Bundles have handed out are in use, before connections get re-written.
+        self.used = used_refs(module)
+
         # Remove and replace each `BundleInstance` from the Module
         while module.bundles:
             name, bundle_inst = module.bundles.popitem()
@@ -215,8 +219,8 @@ class BundleFlattener(ElabPass):
             self.resolve_bundleref(bref)
 
     def is_unused(self, bref: BundleRef) -> bool:
-        """Boolean indication of whether nothing is connected to, sliced from, concatenated with or refers further into `bref`."""
-        if connected_ports(bref) or bref._slices or bref._concats:
+        """Boolean indication of whether no connection of the Module uses `bref`, or a reference derived from it."""
+        if id(bref) in self.used:
             return False
         return all(self.is_unused(sub) for sub in bref.refs_to_me.values())
 
